@@ -530,6 +530,23 @@ def sweeps(tier, rng):
             yield (("tag-xml", tag), bad)
         for u, name in sorted(agl.UV2AGL.items()):
             yield (("agl", u), None if agl.toUnicode(name) == chr(u) else "agl.toUnicode(%r) != U+%04X" % (name, u))
+        # the generic forms, exhaustively where the domain is small: uniXXXX for EVERY scalar value of the BMP (surrogates are not
+        # scalar values and must give nothing), uXXXX / uXXXXXX on the BMP and on sampled + boundary astral values, sequences, suffixes
+        bad_uni = [cp for cp in range(0x10000) if agl.toUnicode("uni%04X" % cp) != ("" if 0xD800 <= cp <= 0xDFFF else chr(cp))]
+        yield (("agl-uniXXXX", "BMP"), None if not bad_uni else "agl.toUnicode('uniXXXX') is wrong for %d code points, e.g. %s" % (len(bad_uni), ", ".join("U+%04X" % c for c in bad_uni[:5])))
+        bad_u = [cp for cp in range(0x10000) if agl.toUnicode("u%04X" % cp) != ("" if 0xD800 <= cp <= 0xDFFF else chr(cp))]
+        yield (("agl-uXXXX", "BMP"), None if not bad_u else "agl.toUnicode('uXXXX') is wrong for %d code points, e.g. %s" % (len(bad_u), ", ".join("U+%04X" % c for c in bad_u[:5])))
+        astral = [0x10000, 0x10001, 0x1F600, 0x1FFFF, 0x20000, 0xFFFFF, 0x100000, 0x10FFFF] + [rng.randint(0x10000, 0x10FFFF) for _ in range(200)]
+        for cp in astral:
+            nm = "u%05X" % cp if cp < 0x100000 else "u%06X" % cp
+            yield (("agl-u", cp), None if agl.toUnicode(nm) == chr(cp) else "agl.toUnicode(%r) != U+%X" % (nm, cp))
+        for cp in (0x110000, 0x1FFFFF):
+            yield (("agl-u", cp), None if agl.toUnicode("u%06X" % cp) == "" else "agl.toUnicode('u%06X') accepts a value beyond U+10FFFF" % cp)
+        for _ in range(300):
+            cps = [rng.choice([0x41, 0xD7FF, 0xE000, 0xFFFF, 0x20, 0x0, 0xD7FE, 0x1234]) if rng.chance(50) else rng.choice([c for c in (rng.randint(0, 0xFFFF),) if not 0xD800 <= c <= 0xDFFF] or [0x42]) for _ in range(rng.randint(2, 4))]
+            nm = "uni" + "".join("%04X" % c for c in cps) + rng.choice(["", ".alt", ".sc.001"])
+            want = "".join(chr(c) for c in cps)
+            yield (("agl-uni-seq", nm), None if agl.toUnicode(nm) == want else "agl.toUnicode(%r) = %r, not %r" % (nm, agl.toUnicode(nm), want))
         for _ in range(n // 4):
             bits = rng.choice([8, 16, 32, 40]); v = rng.randint(0, 2**bits - 1)
             s_ = num2binary(v, bits)
